@@ -31,13 +31,17 @@ def seeds():
     if not os.path.exists(f):
         return '(seeded/RESULTS.json not produced yet)'
     res = json.load(open(f))
-    rows = ['| seed | breaks | what it needs to manifest | result of the checks (quick tier, seed 1) |', '|---|---|---|---|']
+    rows = ['| seed | breaks | what it needs to manifest | result of the checks now (quick tier, seed 1) | first result (before the checks were strengthened) |', '|---|---|---|---|---|']
     for sid in sorted(res):
         r = res[sid]
         if 'error' in r:
-            rows.append('| %s | | | %s |' % (sid, r['error'])); continue
+            rows.append('| %s | | | %s | |' % (sid, r['error'])); continue
         st = '; '.join('%s: %s' % (c, o.get('status')) for c, o in sorted(r['checks'].items()))
-        rows.append('| %s | %s | %s | %s |' % (sid, r['property'], r['needs'][:260].replace('|', '\\|').replace('\n', ' '), st))
+        h = r.get('history') or []
+        first = '; '.join('%s: %s' % (c, v) for c, v in sorted(h[0]['checks'].items())) if h else 'same'
+        if first == st:
+            first = 'same'
+        rows.append('| %s | %s | %s | %s | %s |' % (sid, r['property'], r['needs'][:260].replace('|', '\\|').replace('\n', ' '), st, first))
     return '\n'.join(rows)
 
 def main():
